@@ -115,4 +115,43 @@ fn c02c13_nested_cast__same_as_two_casts__nat() {
     assert!(flattened > 100, "the constructor flattened only {flattened} nested casts");
 }
 
+// C13 (bounded stand-in, native): FLOAT / DOUBLE -> DECIMAL(p, s) chooses the neighbour "half away from zero".  Every
+// dyadic value q / 2^(s+3), |q| <= 4000, for s in 0..=3 (these include every tie (2t+1) / 2^(s+1), e.g. -2.5 at scale 0,
+// 0.125 at scale 2; the product with 10^s is exact in binary floating point, so the expected value is computed in
+// integer arithmetic) is cast through the real bind -> cast kernel path.
+#[test]
+fn c13_float2dec__rounds_half_away_from_zero__nat() {
+    use crate::arrays::datatype::DecimalTypeMeta;
+    let mut cases = 0usize;
+    let mut ties = 0usize;
+    for s in 0..=3u32 {
+        let den: i128 = 1 << (s + 3);
+        for q in -4000i128..=4000 {
+            // exact value of v * 10^s = q * 10^s / den
+            let num = q * 10i128.pow(s);
+            let (quo, rem) = (num.abs() / den, num.abs() % den);
+            let mag = if 2 * rem >= den { quo + 1 } else { quo };
+            if 2 * rem == den {
+                ties += 1;
+            }
+            let want = if num < 0 { -mag } else { mag };
+            let v64 = q as f64 / den as f64;
+            for (src, name) in [(ScalarValue::Float64(v64), "DOUBLE"), (ScalarValue::Float32(v64 as f32), "REAL")] {
+                let cast = CastExpr::new_using_default_casts(crate::expr::lit(src), DataType::decimal64(DecimalTypeMeta::new(12, s as i8))).unwrap();
+                let got = ConstFold::rewrite(Expression::Cast(cast)).and_then(|e| e.try_into_scalar());
+                match got {
+                    Ok(BorrowedScalarValue::Decimal64(d)) => assert!(
+                        d.value as i128 == want && d.scale == s as i8,
+                        "CAST({v64}::{name} AS DECIMAL(12,{s})) has unscaled value {}, round-half-away-from-zero gives {want}",
+                        d.value
+                    ),
+                    other => panic!("CAST({v64}::{name} AS DECIMAL(12,{s})) did not produce a decimal: {other:?}"),
+                }
+                cases += 1;
+            }
+        }
+    }
+    assert!(cases == 4 * 8001 * 2 && ties > 3000);
+}
+
 include!("/verif/build/kani-gen/cast_expr.playback.rs");
